@@ -656,6 +656,39 @@ Lemma gen_ReservedCBORTagNumberRange_eq :
   GoFuncs.ReservedCBORTagNumberRange = (c_minInternalCBORTagNumber, c_maxInternalCBORTagNumber).
 Proof. reflexivity. Qed.
 
+(* array_data_slab.go / array_metadata_slab.go: Inlinable.  The nested-container model (Nested.v) decides
+   inlining by [inl_prefix k + c_csize c <=? limit], where c_csize is header.size minus the prefix the root
+   currently carries.  The transcribed Go method computes exactly that from header.size in both states of the
+   slab (stand-alone root: prefix 5; already inlined: prefix 17); a slab without extra data (a non-root data
+   slab) and an index slab are never inlinable — the slab-tree fact Nested.v's header comment relies on. *)
+Lemma gen_ArrayDataSlab_Inlinable_eq :
+  forall csize lim, c_inlinedArrayDataSlabPrefixSize + csize < 4294967296 ->
+    GoFuncs.ArrayDataSlab_Inlinable (c_arrayRootDataSlabPrefixSize + csize) false false lim
+      = (Nested.inl_prefix Nested.KArr + csize <=? lim) /\
+    GoFuncs.ArrayDataSlab_Inlinable (c_inlinedArrayDataSlabPrefixSize + csize) false true lim
+      = (Nested.inl_prefix Nested.KArr + csize <=? lim).
+Proof.
+  intros csize lim H. unfold GoFuncs.ArrayDataSlab_Inlinable, Nested.inl_prefix,
+    GoFuncs.k_arrayRootDataSlabPrefixSize, GoFuncs.k_inlinedArrayDataSlabPrefixSize,
+    c_arrayRootDataSlabPrefixSize, c_inlinedArrayDataSlabPrefixSize in *.
+  cbn [negb]. split; [|reflexivity].
+  replace ((((5 + csize + 4294967296 - 5) mod 4294967296) + 17) mod 4294967296) with (17 + csize); [reflexivity|].
+  lia.
+Qed.
+
+Lemma gen_Inlinable_never :
+  forall h i lim, GoFuncs.ArrayDataSlab_Inlinable h true i lim = false /\
+                  GoFuncs.ArrayMetaDataSlab_Inlinable lim = false.
+Proof. intros. split; reflexivity. Qed.
+
+Example gen_example_inlinable :
+  GoFuncs.ArrayDataSlab_Inlinable 105 false false 117 = true /\
+  GoFuncs.ArrayDataSlab_Inlinable 106 false false 117 = false /\
+  GoFuncs.ArrayDataSlab_Inlinable 117 false true 117 = true /\
+  GoFuncs.ArrayDataSlab_Inlinable 118 false true 117 = false /\
+  GoFuncs.ArrayDataSlab_Inlinable 30 true false 117 = false.
+Proof. vm_compute. repeat split. Qed.
+
 (* IsCBORTagNumberRangeAvailable: the answer the application gets when it asks whether it may use the CBOR
    tag numbers lo..hi for its own values.  Specification: error exactly for an empty (reversed) range;
    otherwise "available" exactly when NO number of the range lies in the reserved interval, and then in
